@@ -300,6 +300,10 @@ class AutorefMachine(Machine):
             if got != want:
                 raise Violation('an operation returned a Function denoting the wrong function',
                                 got=U.fmt(got), want=U.fmt(want))
+        if any(new is f for f in fns):
+            # the library handed back one of the live Function objects itself (no new handle):
+            # the registry must not count it twice
+            return
         fns.append(new)
         masks.append(want)
 
